@@ -575,6 +575,7 @@ func NewDataService(t TypeService, rootUUID dvid.UUID, id dvid.InstanceID, name 
 		checksum:    dvid.DefaultChecksum,
 		syncNames:   []dvid.InstanceName{},
 		syncData:    dvid.UUIDSet{},
+		tags:        make(map[string]string),
 		unversioned: false,
 	}
 	if err := data.ModifyConfig(c); err != nil {
